@@ -173,11 +173,26 @@ class PageCache(Entity):
         while len(self._pages) >= self._capacity:
             yield from self._evict_one()
 
+    def _insert_loaded(self, page_id: int) -> Generator[float, None, bool]:
+        """Insert a page that was just read from disk.
+
+        Other operations ran during the read latency: they may have cached the
+        page themselves (possibly dirty - it must not be replaced by a clean
+        copy) or filled the room that was made before the read.
+        """
+        if page_id in self._pages:
+            return False
+        yield from self._ensure_space()
+        if page_id in self._pages:
+            return False
+        self._pages[page_id] = _CachedPage(page_id=page_id)
+        return True
+
     def _load_page(self, page_id: int) -> Generator[float]:
         """Load a page from disk into cache."""
         yield from self._ensure_space()
         yield self._disk_read_latency_s
-        self._pages[page_id] = _CachedPage(page_id=page_id)
+        yield from self._insert_loaded(page_id)
 
     def read_page(self, page_id: int) -> Generator[float]:
         """Read a page, serving from cache if present.
@@ -199,8 +214,8 @@ class PageCache(Entity):
             if ahead_id not in self._pages and len(self._pages) < self._capacity:
                 yield from self._ensure_space()
                 yield self._disk_read_latency_s
-                self._pages[ahead_id] = _CachedPage(page_id=ahead_id)
-                self._readaheads += 1
+                if (yield from self._insert_loaded(ahead_id)):
+                    self._readaheads += 1
 
     def write_page(self, page_id: int) -> Generator[float]:
         """Write a page to cache, marking it dirty.
